@@ -12,10 +12,16 @@ RULES = {
 }
 
 
-def run_rule(case, rule, k=None, data_type=None):
+def run_rule(case, rule, k=None, data_type=None, grow=False):
     from preflibtools.aggregation import singlewinner as SW
-    inst = gen.inst_of(case, data_type=data_type)
     f = getattr(SW, RULES[rule][0] if rule in RULES else rule)
+    inst = None
+    if grow and data_type is None:
+        # one object: queried after the first ballots, grown through the public API, queried again (judged)
+        warm = (lambda i: f(i, k)) if rule == "k_approval" else f
+        inst = gen.grown_instance(gen.from_json_profile(case["profile"]), case["alts"], case["type"], warm)
+    if inst is None:
+        inst = gen.inst_of(case, data_type=data_type)
     r = call(f, inst, k, limit=5.0) if rule == "k_approval" else call(f, inst, limit=5.0)
     if r[0] == "ok":
         try:
@@ -116,6 +122,8 @@ class C06(Prop):
             if rng.random() < 0.15:
                 # claim a type outside the domain to probe the guard
                 case["declared"] = rng.choice(["soc", "soi", "toc", "toi", "cat", "wmd"])
+            elif rng.random() < 0.2:
+                case["grow"] = True
             yield case
 
     @staticmethod
@@ -133,7 +141,7 @@ class C06(Prop):
     def run_impl(self, case):
         self.count("rule:" + case["rule"])
         dt = case.get("declared")
-        obs = {"res": run_rule(case, case["rule"], case.get("k"), data_type=dt)}
+        obs = {"res": run_rule(case, case["rule"], case.get("k"), data_type=dt, grow=case.get("grow", False))}
         if dt is None and len(case["profile"]) > 1:
             # same ballots, reversed storage order and uniformly scaled multiplicities
             c2 = dict(case, profile=[[o, 3 * m] for o, m in reversed(case["profile"])])
